@@ -121,7 +121,41 @@ func (cd Cond) polarity(v ssa.Value) int {
 	case negOp(swapOp(b.Op)) == cd.Op && cd.L(b.Y) && cd.R(b.X):
 		return -1
 	}
+	// x.Cmp(y) ⋈ 0 on big.Int / uint256.Int reads as x ⋈ y
+	if x, y, op, ok := bigCompare(b); ok {
+		switch {
+		case op == cd.Op && cd.L(x) && cd.R(y):
+			return +1
+		case swapOp(op) == cd.Op && cd.L(y) && cd.R(x):
+			return +1
+		case negOp(op) == cd.Op && cd.L(x) && cd.R(y):
+			return -1
+		case negOp(swapOp(op)) == cd.Op && cd.L(y) && cd.R(x):
+			return -1
+		}
+	}
 	return 0
+}
+
+// bigCompare recognises `x.Cmp(y) op 0` (and `0 op x.Cmp(y)`) for the
+// three-way Cmp of math/big.Int and uint256.Int.
+func bigCompare(b *ssa.BinOp) (x, y ssa.Value, op token.Token, ok bool) {
+	try := func(c, z ssa.Value, o token.Token) bool {
+		call, isCall := c.(*ssa.Call)
+		if !isCall || !ConstInt(0)(z) {
+			return false
+		}
+		n := calleeName(&call.Call)
+		if n != "(*math/big.Int).Cmp" && n != "(*github.com/holiman/uint256.Int).Cmp" {
+			return false
+		}
+		x, y, op = call.Call.Args[0], call.Call.Args[1], o
+		return true
+	}
+	if try(b.X, b.Y, b.Op) || try(b.Y, b.X, swapOp(b.Op)) {
+		return x, y, op, true
+	}
+	return nil, nil, token.ILLEGAL, false
 }
 
 // EdgesWhere returns the CFG edges of f on which cd is known to hold.
